@@ -74,6 +74,10 @@ pub const TEMPLATES: &[&str] = &[
     "local a : number , b : string = 1 , \"s\"",
     "local a : number ? = nil",
     "local a : { number } = { }",
+    // access modifiers: kept on properties and indexers, an array type with one is refused (never thinned)
+    "local a : { read number } = { }",
+    "local a : { write number } = { }",
+    "local a : { read x : number , write [ string ] : number } = { }",
     "local a : { x : number , y : string } = t",
     "local a : { [ string ] : number } = t",
     "local a : ( number , string ) -> boolean = f",
